@@ -5,6 +5,7 @@
    A file is a [list byte] with bytes as N < 256.  Coordinates are [spec_float]
    (float64 values); the float32 layer is Io/F32.v. *)
 From Coq Require Import ZArith NArith List Lia Bool Floats.
+From Coq Require Uint63.
 From Sdfx Require Import Io.F32.
 Import ListNotations.
 Open Scope N_scope.
@@ -465,17 +466,20 @@ Fixpoint tris_eqb (l m : list tri) : bool :=
   | _, _ => false
   end.
 
-(* file contents are shipped as 50-byte little-endian chunks (the last one shorter);
-   same bytes as [le], computed with shifts *)
+(* file contents are shipped as 7-byte little-endian chunks in primitive integers
+   (the last one shorter); same bytes as [le], computed with shifts *)
 Fixpoint le_bits (k : nat) (n : N) : list byte :=
   match k with
   | O => []
   | S k' => N.land n 255 :: le_bits k' (N.shiftr n 8)
   end.
-Fixpoint unpack (len : N) (chunks : list N) : list byte :=
+Definition chunk := PrimInt63.int.
+Fixpoint unpack (len : N) (chunks : list chunk) : list byte :=
   match chunks with
   | [] => []
-  | c :: r => if len <? 50 then le_bits (N.to_nat len) c else le_bits 50 c ++ unpack (len - 50) r
+  | c :: r =>
+    let n := Z.to_N (Uint63.to_Z c) in
+    if len <? 7 then le_bits (N.to_nat len) n else le_bits 7 n ++ unpack (len - 7) r
   end.
 
 Fixpoint bytes_eqb (l m : list byte) : bool :=
@@ -499,53 +503,69 @@ Definition word_close (w1 w2 : word) : bool :=
    ((w1 <=? w2 + 4) && (w2 <=? w1 + 4))) ||
   ((w1 mod 0x80000000 =? 0) && (w2 mod 0x80000000 =? 0)).
 
-Definition record_agree (rm ri : list byte) : bool :=
-  match words_of rm, words_of ri with
-  | n1 :: n2 :: n3 :: vm, k1 :: k2 :: k3 :: vi =>
-    word_close n1 k1 && word_close n2 k2 && word_close n3 k3 &&
-    bytes_eqb vm vi && bytes_eqb (skipn 48 rm) (skipn 48 ri)
-  | _, _ => false
-  end.
+Section Agree.
+  Variable cmp : word -> word -> bool.   (* comparison of Normal words *)
+  Definition record_agree (rm ri : list byte) : bool :=
+    match words_of rm, words_of ri with
+    | n1 :: n2 :: n3 :: vm, k1 :: k2 :: k3 :: vi =>
+      cmp n1 k1 && cmp n2 k2 && cmp n3 k3 &&
+      bytes_eqb vm vi && bytes_eqb (skipn 48 rm) (skipn 48 ri)
+    | _, _ => false
+    end.
 
-Fixpoint records_agree (fuel : nat) (m i : list byte) : bool :=
-  match fuel with
-  | O => false
-  | S f =>
-    match m, i with
-    | [], [] => true
-    | _, _ =>
-      match take 50 m, take 50 i with
-      | Some (rm, m'), Some (ri, i') => record_agree rm ri && records_agree f m' i'
+  Fixpoint records_agree (fuel : nat) (m i : list byte) : bool :=
+    match fuel with
+    | O => false
+    | S f =>
+      match m, i with
+      | [], [] => true
+      | _, _ =>
+        match take 50 m, take 50 i with
+        | Some (rm, m'), Some (ri, i') => record_agree rm ri && records_agree f m' i'
+        | _, _ => false
+        end
+      end
+    end.
+
+  (* the 80 header bytes are free text (the property only fixes their number); the count
+     and every record byte are compared *)
+  Definition files_agree_with (mb ib : list byte) : bool :=
+    bytes_eqb mb ib ||
+    match take 80 mb, take 80 ib with
+    | Some (_, bm), Some (_, bi) =>
+      match take 4 bm, take 4 bi with
+      | Some (cm, rm), Some (ci, ri) => bytes_eqb cm ci && records_agree (S (length rm)) rm ri
       | _, _ => false
       end
-    end
-  end.
-
-Definition files_agree (mb ib : list byte) : bool :=
-  bytes_eqb mb ib ||
-  match take 84 mb, take 84 ib with
-  | Some (hm, bm), Some (hi, bi) => bytes_eqb hm hi && records_agree (S (length bm)) bm bi
-  | _, _ => false
-  end.
+    | _, _ => false
+    end.
+End Agree.
+Definition files_agree := files_agree_with word_close.
+Definition files_exact := files_agree_with word_same.
 
 (* id, triangles, bytes written by SaveSTL, bytes written by the streaming writer
    (ToSTL), what LoadSTL returned for the SaveSTL file (None = error) *)
-Definition case := (N * list ftri * (N * list N) * (N * list N) * option (list ftri))%type.
+Definition case := (N * list ftri * (N * list chunk) * (N * list chunk) * option (list ftri))%type.
 
-Definition case_ok (c : case) : bool :=
+Definition case_check (agree : list byte -> list byte -> bool) (c : case) : bool :=
   let '(_, fts, (slen, schunks), (tlen, tchunks), loaded) := c in
   let ts := map tri_sf fts in
   let sb := unpack slen schunks in
   let tb := unpack tlen tchunks in
-  files_agree (save_f ts) sb && files_agree (stream_save_f [ts]) tb &&
+  agree (save_f ts) sb && agree (stream_save_f [ts]) tb &&
   match decode sb, loaded with
   | Some l, Some l' => tris_eqb l (map tri_sf l')
   | None, None => true
   | _, _ => false
   end.
+Definition case_ok := case_check files_agree.
 
+Definition case_id (c : case) : N := let '(id, _, _, _, _) := c in id.
 Definition mismatches (cs : list case) : list N :=
-  map (fun c : case => let '(id, _, _, _, _) := c in id) (filter (fun c => negb (case_ok c)) cs).
+  map case_id (filter (fun c => negb (case_ok c)) cs).
+(* cases that agree only within the tolerance on Normal words (information, not an alarm) *)
+Definition inexact (cs : list case) : list N :=
+  map case_id (filter (fun c => case_ok c && negb (case_check files_exact c)) cs).
 
 (* conversions alone: id, x, Float32bits(float32(x)), float64(float32(x)) *)
 Definition conv_case := (N * float * N * float)%type.
